@@ -223,6 +223,43 @@ pub fn gen(tier: Tier, rng: &mut Rng) -> Vec<Sx> {
         }).collect();
         v.push(Sx::l(vec![Sx::l(rules), facts]));
     }
+    // feeding chains: a lower-salience rule writes (flat or nested) the very field a higher-salience rule tests, so that
+    // the higher rule is false when first considered and true in the next pass (its condition must be re-evaluated)
+    for _ in 0..n / 4 {
+        let fields: [&[&str]; 5] = [&["n1"], &["n2"], &["User", "age"], &["Order", "qty"], &["Order", "cust", "level"]];
+        let len = rng.range(2, 4) as usize;
+        let mut order: Vec<usize> = (0..5).collect(); rng.shuffle(&mut order);
+        let chain: Vec<&[&str]> = order.iter().take(len + 1).map(|&i| fields[i]).collect();
+        // facts: every chain field present and small; the other schema fields random
+        let mut facts_sx = gen_facts(rng);
+        let start = rng.range(0, 3) as i64;
+        let _ = &mut facts_sx;
+        let mut sal = vec![30i64, 20, 10, 5, 1];
+        if rng.chance(1, 4) { sal.reverse(); }          // sometimes the feeder is considered first (then one pass is enough)
+        let mut rules = vec![];
+        for i in 0..len {
+            // rule i: when chain[i+1] >= t  then chain[i] = chain[i] + d   (fed by rule i+1); the last rule starts the chain
+            let t = rng.range(3, 6) as i64;
+            let c = cmp(a_field(chain[i + 1]), 3, a_lit(lit_int(t)));
+            let e = if rng.chance(1, 2) { a_lit(lit_int(t + rng.range(0, 3) as i64 + 10)) } else { a_bin('+', a_field(chain[i]), a_lit(lit_int(10))) };
+            rules.push(Sx::l(vec![Sx::i(sal[i]), c, Sx::l(vec![Sx::l(vec![path_sx(chain[i]), e])])]));
+        }
+        // starter: always true on the initial facts, sets the last field of the chain high
+        let starter = cmp(a_field(chain[len]), 4, a_lit(lit_int(3)));
+        rules.push(Sx::l(vec![Sx::i(sal[len]), starter, Sx::l(vec![Sx::l(vec![path_sx(chain[len]), a_lit(lit_int(9))])])]));
+        // explicit small facts for the chain fields
+        let mut top: Vec<Sx> = vec![];
+        let mut user: Vec<Sx> = vec![]; let mut order_o: Vec<Sx> = vec![];
+        for f in &fields {
+            let v = Sx::l(vec![Sx::n(0), Sx::i(start)]);
+            match f.len() { 1 => top.push(Sx::l(vec![Sx::s(f[0]), v])),
+                            2 => if f[0] == "User" { user.push(Sx::l(vec![Sx::s(f[1]), v])) } else { order_o.push(Sx::l(vec![Sx::s(f[1]), v])) },
+                            _ => order_o.push(Sx::l(vec![Sx::s("cust"), Sx::l(vec![Sx::n(6), Sx::l(vec![Sx::l(vec![Sx::s("level"), v])])])])) }
+        }
+        top.push(Sx::l(vec![Sx::s("User"), Sx::l(vec![Sx::n(6), Sx::l(user)])]));
+        top.push(Sx::l(vec![Sx::s("Order"), Sx::l(vec![Sx::n(6), Sx::l(order_o)])]));
+        v.push(Sx::l(vec![Sx::l(rules), Sx::l(top)]));
+    }
     v
 }
 
@@ -331,7 +368,7 @@ pub fn run(case: &Sx) -> (Sx, String) {
     let text = grl_text(case.at(0));
     let rules = match GRLParser::parse_rules(&text) {
         Ok(r) => r,
-        Err(e) => return (Sx::l(vec![Sx::l(vec![Sx::n(9), Sx::s(&format!("{}", e))]), Sx::l(vec![]), Sx::l(vec![])]), "parse error".into()),
+        Err(e) => return (Sx::l(vec![Sx::l(vec![Sx::n(9), Sx::s(&format!("{}", e))]), Sx::l(vec![]), Sx::l(vec![]), Sx::l(vec![])]), "parse error".into()),
     };
     let parsed = Sx::l(rules.iter().map(sx_of_rule).collect());
     let names_ok = rules.iter().enumerate().all(|(i, r)| r.name == format!("R{}", i) && r.no_loop && r.enabled);
@@ -349,7 +386,22 @@ pub fn run(case: &Sx) -> (Sx, String) {
         Ok(r) => Sx::l(vec![Sx::n(0), Sx::us(r.cycle_count), Sx::us(r.rules_evaluated), Sx::us(r.rules_fired)]),
         Err(_) => Sx::l(vec![Sx::n(1), Sx::n(1)]),
     };
+    // the same input through the plain `execute` entry point (a separate copy of the loop in engine.rs): result and final facts
+    let fin = {
+        let rules2 = GRLParser::parse_rules(&text).unwrap();
+        let kb2 = KnowledgeBase::new("c01b");
+        for r in rules2 { kb2.add_rule(r).unwrap(); }
+        let mut engine2 = RustRuleEngine::new(kb2);
+        let facts2 = Facts::new();
+        for kv in case.at(1).as_l() { facts2.add_value(&kv.at(0).as_s(), val_of_sx(kv.at(1))).unwrap(); }
+        let r2 = engine2.execute(&facts2);
+        let res2 = match &r2 {
+            Ok(r) => Sx::l(vec![Sx::n(0), Sx::us(r.cycle_count), Sx::us(r.rules_evaluated), Sx::us(r.rules_fired)]),
+            Err(_) => Sx::l(vec![Sx::n(1), Sx::n(1)]),
+        };
+        Sx::l(vec![res2, sx_of_facts(&facts2.get_all_facts())])
+    };
     let parsed = if names_ok { parsed } else { Sx::l(vec![Sx::n(8)]) };
     let label = match (&res, nfired) { (Err(_), _) => "error", (_, 0) => "trivial: no rule fired", (_, 1) => "fires 1", _ => "fires many" };
-    (Sx::l(vec![parsed, Sx::l(log), result]), label.to_string())
+    (Sx::l(vec![parsed, Sx::l(log), result, fin]), label.to_string())
 }
